@@ -344,22 +344,25 @@ Section RepC.
   Qed.
 
   (* shape C: clear *)
-  Lemma rep_clear clock c : RepC clock c -> RepC clock (clear_coll compact c).
+  Lemma lazy_clear_compact ts v : lazy_clear compact ts v = true -> compact = true.
+  Proof. unfold lazy_clear. destruct compact; [reflexivity|discriminate]. Qed.
+
+  Lemma rep_clear clock lazy c : (lazy = true -> compact = true) -> RepC clock c -> RepC clock (clear_coll lazy c).
   Proof.
-    intros R. unfold clear_coll. destruct (c_meta c) as [m|] eqn:E; [|exact R].
+    intros LZ R. unfold clear_coll. destruct (c_meta c) as [m|] eqn:E; [|exact R].
     constructor; cbn [c_meta c_elems].
-    - destruct compact; [apply (rc_nodup _ _ R)|].
+    - destruct lazy; [apply (rc_nodup _ _ R)|].
       unfold drop_gen. apply (nodup_kfilter (fun k : vkey => negb (fst k =? cm_ver m))), (rc_nodup _ _ R).
     - discriminate.
-    - intros _ C. rewrite C. unfold drop_gen.
+    - intros _ C. destruct lazy; [rewrite (LZ eq_refl) in C; discriminate|]. unfold drop_gen.
       destruct (rc_meta _ _ R m E) as (_ & _ & d). unfold ver_ok in d. rewrite C in d.
       assert (A0 : forall e, In e (c_elems c) -> fst (fst e) = 0).
       { intros e He. pose proof (rc_vers _ _ R e He) as X. unfold ver_ok in X. rewrite C in X. exact X. }
       rewrite d. clear - A0. induction (c_elems c) as [|e r IH]; [reflexivity|]. cbn [filter].
       unfold vkey in *. rewrite (A0 e (or_introl eq_refl)). cbn. apply IH. intros x Hx; apply A0; right; exact Hx.
-    - intros e He. apply (rc_vers _ _ R e). destruct compact; [exact He|].
+    - intros e He. apply (rc_vers _ _ R e). destruct lazy; [exact He|].
       unfold drop_gen in He. apply filter_In in He. tauto.
-    - intros e He. apply (rc_sub _ _ R e). destruct compact; [exact He|].
+    - intros e He. apply (rc_sub _ _ R e). destruct lazy; [exact He|].
       unfold drop_gen in He. apply filter_In in He. tauto.
   Qed.
 End RepC.
